@@ -398,6 +398,37 @@ func run(s *kernel.Sim, c *scen.Case) {
 						if !probeRoutes(x, "expired") {
 							ok = false
 						}
+						if ok && t.Chance("expired.refiled", 1, 3) {
+							// something that names the expired session looks at it first (that is how expiry is noticed
+							// between sweeps), perhaps a sweep runs, and then an entry with the same id is filed again
+							// (claim session ids are a function of the claim: importing the claim again does this) -
+							// under no route at all: none of the expired session's routes may lead to it
+							touched := t.Chance("expired.touched", 1, 2)
+							if touched {
+								cache.LookupNonExpired(x.id)
+							}
+							swept := !touched || t.Chance("expired.swept", 1, 2)
+							if swept {
+								cache.InvalidateExpired()
+							}
+							// (an expired entry nothing has looked at yet is still in the cache with its routes;
+							// filing over it is the caller replacing an entry, not an expiry: not judged)
+							cache.Store(security.NewSessionEntry(x.id, "<10.9.9.9:1>", nil, nil, time.Now().Add(time.Hour), 0, "another-tag"))
+							for _, tg := range tags {
+								for _, ad := range append(append([]string(nil), addrs...), spAddrs[0], spAddrs[1]) {
+									for _, form := range []string{ad, "<" + ad + ">"} {
+										for _, cm := range cmds {
+											if e, found := cache.LookupByCommand(tg, form, fmt.Sprint(cm)); found && e.ID() == x.id && ok {
+												s.Violate("route-to-dead-session", fmt.Sprintf("LookupByCommand/refiled-after-expiry/touched=%v/swept=%v", touched, swept), fmt.Sprintf("session %s expired (noticed by a lookup: %v; sweep ran: %v); an entry with the same id filed again is reachable through the expired session's route (%q,%q,%d)", x.id, touched, swept, tg, form, cm))
+												ok = false
+											}
+										}
+									}
+								}
+							}
+							cache.Invalidate(x.id)
+							s.Probe("refiled-after-expiry-has-no-routes")
+						}
 					}
 				}
 			case op >= 8: // explicit invalidation of a known session
